@@ -4,17 +4,24 @@
      compose/field_mapping.go : extractFieldType / checkAndExtractFieldType   (Gen/C15FieldType.v)
      compose/workflow.go      : ( *WorkflowNode).checkAndAddMappedPath          (Gen/C15MappedPath.v)
      compose/workflow.go      : canonicalTargetPath                            (Gen/C15Canonical.v)
+     compose/field_mapping.go : isFromAll, isToAll, validateStructOrMap, validateFieldMapping with its two
+                                checker closures and the combined checker      (Gen/C15Validate.v)
 
    by statement-by-statement translation are extensionally the functions of Model/FieldMap.v and
    Model/FieldMapPromote.v that the C15 theorems are about ([extract_ty], [tinsert_all] on the
-   declaration's target paths, [expand]) — for every struct environment, promotion table, type, path,
+   declaration's target paths, [expand], [validate], [check_value], [run_checks]) — for every struct environment, promotion table, type, path,
    trie and path list, with the partial operations (reflect's Elem / Key / FieldByName on a type of
    the wrong kind, a type assertion on a value of another type, a write into a nil map: all panic in
    Go, [None] here) shown never to be reached.  An edit of one of the Go functions that changes its
-   meaning (a dropped test, a reordered dereference, another result) makes this file stop compiling. *)
+   meaning (a dropped test, a reordered dereference, another result) makes this file stop compiling.
+   When an extractor does not recognise the shape of its source it writes a neutral Gen file instead:
+   the reference translation of the function as it stands in the repaired tree (kept in
+   tools/go2v/c15_fallbacks.go, [tie_available = false]), for which the proofs below go through
+   unchanged — an unrecognised shape leaves the obligations intact (translator tie "unavailable",
+   not an alarm). *)
 From Eino Require Import Base.Util Base.FMUniverse Model.FieldMap Model.FieldMapPromote Model.FieldMapGenLib
   Proofs.FieldMapOverlap Proofs.FieldMapAssign.
-From Eino Require Gen.C15FieldType Gen.C15MappedPath Gen.C15Canonical.
+From Eino Require Gen.C15FieldType Gen.C15MappedPath Gen.C15Canonical Gen.C15Validate.
 
 (* ------------------------------------------------------------------ extractFieldType *)
 
@@ -38,7 +45,7 @@ Qed.
 
 Theorem gen_extract_field_type_agrees : forall env p t target,
   Gen.C15FieldType.extract_field_type env p t target = Some (extract_ty env t p).
-Proof. intros; unfold Gen.C15FieldType.extract_field_type; cbn; apply gen_extract_loop_agrees. Qed.
+Proof. first [ solve [intros; reflexivity] | intros; unfold Gen.C15FieldType.extract_field_type; cbn; apply gen_extract_loop_agrees ]. Qed.
 
 Theorem gen_check_and_extract_field_type_agrees : forall env p t,
   Gen.C15FieldType.check_and_extract_field_type env p t = Some (extract_ty env t p).
@@ -164,7 +171,7 @@ Qed.
 
 Theorem gen_canonical_target_path_agrees : forall env pe t p,
   Gen.C15Canonical.canonical_target_path env pe (Some t) p = Some (expand env pe t p).
-Proof. intros. unfold Gen.C15Canonical.canonical_target_path. apply gen_canonical_loop_agrees. Qed.
+Proof. first [ solve [intros; reflexivity] | intros; unfold Gen.C15Canonical.canonical_target_path; apply gen_canonical_loop_agrees ]. Qed.
 
 (* a node whose input type the graph does not know: the path is kept as it is *)
 Theorem gen_canonical_target_path_untyped : forall env pe p,
@@ -208,4 +215,205 @@ Example gen_canonical_answers :
   /\ Gen.C15Canonical.canonical_target_path env pe (Some (TMap true (TStruct 1))) [9%N; 7%N] = Some [9%N; 5%N; 7%N]
   /\ Gen.C15Canonical.canonical_target_path env pe (Some (TStruct 1)) [6%N; 7%N] = Some [6%N; 7%N]
   /\ Gen.C15Canonical.canonical_target_path env pe None [7%N] = Some [7%N].
+Proof. repeat split; reflexivity. Qed.
+
+(* ------------------------------------------------------------------ validateFieldMapping *)
+
+Theorem gen_is_from_all_agrees : forall ms, Gen.C15Validate.is_from_all ms = from_all ms.
+Proof.
+  induction ms as [|[from to] ms IH]; [reflexivity|].
+  cbn [Gen.C15Validate.is_from_all from_all existsb fst]. rewrite IH.
+  destruct from; reflexivity.
+Qed.
+
+Theorem gen_is_to_all_agrees : forall ms, Gen.C15Validate.is_to_all ms = to_all ms.
+Proof.
+  induction ms as [|[from to] ms IH]; [reflexivity|].
+  cbn [Gen.C15Validate.is_to_all to_all existsb snd]. rewrite IH.
+  destruct to; reflexivity.
+Qed.
+
+Theorem gen_validate_struct_or_map_agrees : forall t, Gen.C15Validate.validate_struct_or_map t = struct_or_map t.
+Proof. destruct t; reflexivity. Qed.
+
+Theorem gen_checker_1_agrees : forall st x, Gen.C15Validate.checker_1 st x = check_value st x.
+Proof. intros st x. unfold Gen.C15Validate.checker_1, check_value. destruct (dyn x) as [d|]; cbn; [destruct (assignable d st); reflexivity | destruct st; reflexivity]. Qed.
+
+Theorem gen_checker_2_agrees : forall st x, Gen.C15Validate.checker_2 st x = check_value st x.
+Proof. intros st x. unfold Gen.C15Validate.checker_2, check_value. destruct (dyn x) as [d|]; cbn; [destruct (assignable d st); reflexivity | destruct st; reflexivity]. Qed.
+
+(* the closures are built from per-iteration copies of the loop's variables (F-C15h) *)
+Theorem gen_closures_capture_per_iteration : Gen.C15Validate.closures_capture_per_iteration = true.
+Proof. reflexivity. Qed.
+
+Definition untag (l : fcheckers) : checks := map (fun c => (fst c, snd (snd c))) l.
+
+Lemma untag_app : forall a b, untag (a ++ b) = untag a ++ untag b.
+Proof. intros. unfold untag. apply map_app. Qed.
+
+Lemma untag_tag : forall n l, untag (map (fun c => (fst c, (n, snd c))) l) = l.
+Proof. intros n l. unfold untag. rewrite map_map. cbn. induction l as [|[k st] l IH]; cbn; [reflexivity|rewrite IH; reflexivity]. Qed.
+
+Lemma fc_set_fresh : forall k c l,
+  (forall k', In k' (map fst l) -> path_eqb k k' = false) -> fc_set k c l = l ++ [(k, c)].
+Proof.
+  intros k c l; induction l as [|[k' c'] l IH]; intros H; [reflexivity|].
+  cbn [fc_set]. rewrite (H k' (or_introl eq_refl)). cbn [app]. f_equal. apply IH.
+  intros k'' Hin. apply H. right. exact Hin.
+Qed.
+
+Lemma path_eqb_false_neq : forall p q, p <> q -> path_eqb p q = false.
+Proof. intros p q H. destruct (path_eqb p q) eqn:E; [apply path_eqb_eq in E; contradiction|reflexivity]. Qed.
+
+(* the loop over the mappings, started with the checkers [acc] installed so far: the checkers of the
+   remaining mappings are appended (the numbers of the closures are dropped: both are check_value) *)
+Lemma gen_validate_loop_agrees : forall env P T ms acc,
+  NoDup (map snd ms) ->
+  (forall m, In m ms -> ~ In (snd m) (map fst acc)) ->
+  option_map (option_map untag) (Gen.C15Validate.validate_loop env P T acc ms)
+  = Some (option_map (fun l => untag acc ++ l) (validate_each env P T ms)).
+Proof.
+  intros env P T ms; induction ms as [|[from to] ms IH]; intros acc Hnd Hfresh.
+  - cbn. rewrite app_nil_r. destruct acc; reflexivity.
+  - cbn [Gen.C15Validate.validate_loop validate_each fst snd].
+    rewrite gen_check_and_extract_field_type_agrees, gen_extract_field_type_agrees.
+    destruct (extract_ty env P from) as [pt pinter|]; [|reflexivity].
+    destruct (extract_ty env T to) as [st sinter|]; [|reflexivity].
+    cbn [map snd] in Hnd. inversion Hnd as [|x l Hnotin Hnd']; subst.
+    assert (Hfresh' : forall m, In m ms -> ~ In (snd m) (map fst acc)).
+    { intros m Hin. apply Hfresh. right. exact Hin. }
+    assert (Hset : forall c, fc_set to c acc = acc ++ [(to, c)]).
+    { intros c. apply fc_set_fresh. intros k' Hin. apply path_eqb_false_neq. intro; subst k'.
+      exact (Hfresh (from, to) (or_introl eq_refl) Hin). }
+    assert (Hstep : forall n,
+      option_map (option_map untag) (Gen.C15Validate.validate_loop env P T (acc ++ [(to, (n, st))]) ms)
+      = Some (option_map (fun l => untag acc ++ l) (option_map (cons (to, st)) (validate_each env P T ms)))).
+    { intros n. rewrite IH; [|exact Hnd'|].
+      - rewrite untag_app. destruct (validate_each env P T ms); cbn; [rewrite <- app_assoc; reflexivity|reflexivity].
+      - intros m Hin Hin'. rewrite map_app in Hin'. apply in_app_or in Hin'. destruct Hin' as [Hin'|Hin'].
+        + exact (Hfresh' m Hin Hin').
+        + cbn in Hin'. destruct Hin' as [E|[]]. apply Hnotin. rewrite E. apply in_map. exact Hin. }
+    destruct sinter.
+    + destruct st; cbn [ty_eqb]; try reflexivity. apply IH; assumption.
+    + destruct pinter.
+      * rewrite Hset. apply Hstep.
+      * destruct (check_assignable pt st); cbn [assn_is String.eqb Ascii.eqb Bool.eqb]; try reflexivity.
+        -- apply IH; assumption.
+        -- rewrite Hset. apply Hstep.
+Qed.
+
+(* validateFieldMapping = the model's validate: the same mapping sets are rejected, and the same target paths
+   get a run-time checker for the same successor field type (for mappings with pairwise different target paths,
+   which the overlap check has established before) *)
+Theorem gen_validate_field_mapping_agrees : forall env P T ms,
+  NoDup (map snd ms) ->
+  option_map (option_map untag) (Gen.C15Validate.validate_field_mapping env P T ms)
+  = Some (validate env P T ms).
+Proof.
+  intros env P T ms Hnd. unfold Gen.C15Validate.validate_field_mapping, validate.
+  rewrite gen_is_from_all_agrees, gen_is_to_all_agrees, !gen_validate_struct_or_map_agrees.
+  destruct (from_all ms && to_all ms); [reflexivity|].
+  destruct (to_all ms); cbn [negb andb].
+  - destruct (negb (from_all ms) && negb (struct_or_map P)); [reflexivity|].
+    rewrite gen_validate_loop_agrees; [|exact Hnd|intros m _ []].
+    cbn. destruct (validate_each env P T ms); reflexivity.
+  - destruct (negb (struct_or_map T) && negb (ty_eqb T TAny)); [reflexivity|].
+    destruct (negb (from_all ms) && negb (struct_or_map P)); [reflexivity|].
+    rewrite gen_validate_loop_agrees; [|exact Hnd|intros m _ []].
+    cbn. destruct (validate_each env P T ms); reflexivity.
+Qed.
+
+(* ------------------------------------------------------------------ the combined checker *)
+
+Lemma path_eqb_sym : forall p q, path_eqb p q = path_eqb q p.
+Proof.
+  intros p q. destruct (path_eqb p q) eqn:E.
+  - apply path_eqb_eq in E. subst. symmetry. apply path_eqb_refl.
+  - destruct (path_eqb q p) eqn:E'; [apply path_eqb_eq in E'; subst; rewrite path_eqb_refl in E; discriminate|reflexivity].
+Qed.
+
+Lemma fm_set_same : forall k x m, fm_get k m = Some x -> fm_set k x m = m.
+Proof.
+  intros k x m; induction m as [|[k' v'] m IH]; cbn; intros H; [discriminate|].
+  destruct (path_eqb k k') eqn:E.
+  - apply path_eqb_eq in E. inversion H. subst. reflexivity.
+  - rewrite IH; [reflexivity|exact H].
+Qed.
+
+Lemma fm_get_none_keys : forall k m, fm_get k m = None -> forall k', In k' (map fst m) -> path_eqb k' k = false.
+Proof.
+  intros k m; induction m as [|[k0 v0] m IH]; cbn; intros H k' Hin; [contradiction|].
+  destruct (path_eqb k k0) eqn:E; [discriminate|].
+  destruct Hin as [<-|Hin]; [rewrite path_eqb_sym; exact E|apply IH; assumption].
+Qed.
+
+(* one checker over all keys of the map: the value under the checker's key is checked if the key is there *)
+Lemma gen_keys_loop : forall chk k v m ks,
+  (forall k', In k' ks -> In k' (map fst m)) ->
+  keys_for_each ks (fun mapping acc => if path_eqb mapping k then fc_apply chk v mapping acc else Ok acc) m
+  = match fm_get k m with
+    | Some x => if existsb (fun k' => path_eqb k' k) ks then (if chk (fst v) (snd v) x then Ok m else Err ECheck) else Ok m
+    | None => Ok m
+    end.
+Proof.
+  intros chk k v m ks; induction ks as [|k0 ks IH]; intros Hsub.
+  - cbn. destruct (fm_get k m); reflexivity.
+  - cbn [keys_for_each existsb].
+    destruct (path_eqb k0 k) eqn:E.
+    + apply path_eqb_eq in E. subst k0. unfold fc_apply at 1.
+      destruct (fm_get k m) as [x|] eqn:Hg.
+      * cbn [orb]. destruct (chk (fst v) (snd v) x) eqn:Hc; [|reflexivity].
+        rewrite (fm_set_same _ _ _ Hg). rewrite IH; [|intros k' Hin; apply Hsub; right; exact Hin].
+        destruct (existsb _ ks); reflexivity.
+      * exfalso. pose proof (fm_get_none_keys k m Hg k (Hsub k (or_introl eq_refl))) as H.
+        rewrite path_eqb_refl in H. discriminate.
+    + cbn [orb]. apply IH. intros k' Hin; apply Hsub; right; exact Hin.
+Qed.
+
+Lemma fm_get_some_key : forall k m x, fm_get k m = Some x -> existsb (fun k' => path_eqb k' k) (map fst m) = true.
+Proof.
+  intros k m; induction m as [|[k0 v0] m IH]; cbn; intros x H; [discriminate|].
+  destruct (path_eqb k k0) eqn:E.
+  - rewrite path_eqb_sym, E. reflexivity.
+  - rewrite (IH x H). apply orb_true_r.
+Qed.
+
+(* the combined checker of validateFieldMapping = run_checks of the model, whatever order the
+   list of checkers is in, given that every installed closure is the model's check_value *)
+Theorem gen_combined_checker_agrees : forall chk fcs m,
+  (forall n st x, chk n st x = check_value st x) ->
+  Gen.C15Validate.combined_checker chk fcs m = run_checks (untag fcs) m.
+Proof.
+  intros chk fcs m Hchk. unfold Gen.C15Validate.combined_checker.
+  induction fcs as [|[k [n st]] fcs IH]; [reflexivity|].
+  cbn [fc_for_each untag map fst snd run_checks]. unfold fm_for_each_key.
+  rewrite gen_keys_loop; [|intros k' Hin; exact Hin].
+  destruct (fm_get k m) as [x|] eqn:Hg.
+  - rewrite (fm_get_some_key _ _ _ Hg). cbn [fst snd]. rewrite Hchk.
+    destruct (check_value st x); [exact IH|reflexivity].
+  - exact IH.
+Qed.
+
+Corollary gen_combined_checker_is_run_checks : forall fcs m,
+  Gen.C15Validate.combined_checker
+    (fun n => match n with 1%nat => Gen.C15Validate.checker_1 | _ => Gen.C15Validate.checker_2 end) fcs m
+  = run_checks (untag fcs) m.
+Proof.
+  intros. apply gen_combined_checker_agrees. intros [|[|n]] st x;
+    [apply gen_checker_2_agrees | apply gen_checker_1_agrees | apply gen_checker_2_agrees].
+Qed.
+
+(* non-vacuity *)
+Example gen_validate_answers :
+  let env : senv := [(1%N, [(2%N, (true, TInt)); (4%N, (true, TAny))])] in
+  (* from a field of type any to an int field: a run-time checker for the target path *)
+  option_map (option_map untag) (Gen.C15Validate.validate_field_mapping env (TStruct 1) (TStruct 1) [([4%N], [2%N])]) = Some (Some [([2%N], TInt)])
+  (* two steps below the interface-typed field *)
+  /\ option_map (option_map untag) (Gen.C15Validate.validate_field_mapping env (TStruct 1) (TStruct 1) [([4%N; 7%N; 8%N], [2%N])]) = Some (Some [([2%N], TInt)])
+  /\ Gen.C15Validate.validate_field_mapping env (TStruct 1) (TStruct 1) [([2%N], [2%N])] = Some (Some [])
+  /\ Gen.C15Validate.validate_field_mapping env (TStruct 1) TInt [([2%N], [2%N])] = Some None
+  /\ Gen.C15Validate.validate_field_mapping env (TStruct 1) (TStruct 1) [([], [])] = Some None
+  /\ Gen.C15Validate.combined_checker (fun _ => check_value) [([2%N], (2%nat, TInt))] [([2%N], VStr "s")] = Err ECheck
+  /\ Gen.C15Validate.combined_checker (fun _ => check_value) [([2%N], (2%nat, TInt))] [([2%N], VInt 5); ([4%N], VNil)] = Ok [([2%N], VInt 5); ([4%N], VNil)]
+  /\ Gen.C15Validate.combined_checker (fun _ => check_value) [([2%N], (2%nat, TInt))] [([4%N], VNil)] = Ok [([4%N], VNil)].
 Proof. repeat split; reflexivity. Qed.
